@@ -206,7 +206,11 @@ class Loader(yaml.SafeLoader):
                 for attr_name, type_, _ in class_subobjects(recognized_type):
                     cnode = Node(node)
                     if cnode.has_attribute(attr_name):
-                        subnode = cnode.get_attribute(attr_name)
+                        try:
+                            subnode = cnode.get_attribute(attr_name)
+                        except SeasoningError as e:
+                            raise RecognitionError('{}\n{}'.format(
+                                node.start_mark, e.args[0]))
                         new_subnode = self.__process_node(
                             subnode.yaml_node, type_)
                         cnode.set_attribute(attr_name, new_subnode)
